@@ -110,7 +110,9 @@ class G:
             return "%s %s" % (k, self.anyref())
         if cat == "access":
             if excl: return "resmut %d" % self.ty()
-            k = r.choice(["read", "resread", "setneq", "ressetneq"])
+            k = r.choice(["read", "resread", "setneq", "ressetneq", "mutnr", "resnr"])
+            if k == "mutnr": return "mutnr %s %d %d" % (self.eref(), self.ty(), r.randrange(3))
+            if k == "resnr": return "resnr %d %d" % (self.ty(), r.randrange(3))
             if k == "read": return "read %s %d" % (self.eref(), self.ty())
             if k == "resread": return "resread %d" % self.ty()
             if k == "setneq": return "setneq %s %d %d" % (self.eref(), self.ty(), r.randrange(3))
@@ -440,6 +442,8 @@ def gen_access2(rng):
     g.ndefs = rng.randint(1, 3)
     def access(e):
         ty = rng.randrange(NTY); x = rng.random()
+        if x < 0.08: return "mutnr %s %d %d" % (e, ty, rng.randrange(3))
+        if x < 0.12: return "resnr %d %d" % (ty, rng.randrange(3))
         if x < 0.3: return "mutate %s %d %d" % (e, ty, rng.randrange(3))
         if x < 0.55: return "setneq %s %d %d" % (e, ty, rng.randrange(3))
         if x < 0.75: return "insert %s %d %d" % (e, ty, rng.randrange(3))
